@@ -31,6 +31,8 @@ def _skel(e, leaves):
         return (e["op"], _skel(e["l"], leaves), _skel(e["r"], leaves))
     if k == "call" and astx.callee(e)[0] == "count":
         return "count"
+    if k in ("mem", "ref") and e.get("n") in ("num", "den") and (e.get("qual") or k == "ref"):
+        return e["n"]
     txt = astx.show(e, 40).replace(" ", "")
     if txt.endswith("::num"):
         return "num"
@@ -355,10 +357,41 @@ def round_rule(chk, db):
         chk.violation("ROUND", construct, "rounding-table", "%s: %s" % (astx.loc(f), m), {"where": astx.loc(f)})
 
 
+def conv_rule(chk, db):
+    """CONV: duration's converting constructor is enabled for floating-point ticks whatever the ratio of the periods is, so
+    its value must be count * num / den (or a duration_cast); with integer ticks the constraint makes den == 1."""
+    cs = [f for f in db.by_q.get("etl::chrono::duration::<ctor>", []) if len(f["params"]) == 1 and "duration<" in f["params"][0]["ty"]
+          and "Rep2" in f["params"][0]["ty"]]
+    if not cs:
+        chk.analysis_broken("CONV: duration(duration<Rep2, Period2> const&) no longer exists")
+        return
+    f = cs[0]
+    construct = astx.sig(f)
+    chk.instance("CONV")
+    inits = [i for i in (f.get("inits") or []) if i.get("field")]
+    e = inits[0]["e"] if len(inits) == 1 else None
+    ok, msg = None, "the initialiser of the tick count is not recognisable"
+    if e is not None:
+        if any(astx.callee(c)[0] == "duration_cast" for c in SP.calls_in(e)):
+            ok = True
+        else:
+            sk = _skel(e, {})
+            if sk == ("/", ("*", "count", "num"), "den"):
+                ok = True
+            elif sk in (("*", "count", "num"), "count", ("/", "count", "den"), ("*", ("/", "count", "den"), "num")):
+                ok, msg = False, "the tick count is %s; for floating-point ticks the periods need not divide, the value is count * num / den" % (sk,)
+    chk.obligation("CONV", construct, ok)
+    if ok is False:
+        chk.violation("CONV", construct, "conversion-factor", "%s: %s" % (astx.loc(f), msg), {"where": astx.loc(f)})
+    elif ok is None:
+        chk.unknown_instance("CONV", construct, msg)
+
+
 def run(chk, tier):
     quick = tier == "quick"
     db = D.load("checks")
     cast_rule(chk, db)
+    conv_rule(chk, db)
     round_rule(chk, db)
     tus, info = gen.generate(quick)
     res = wit.compile_many(tus, compiler="g++", jobs=16)
